@@ -106,3 +106,24 @@ impl TopicAliasRecv {
         self.max_alias
     }
 }
+
+#[cfg(feature = "verif-hooks")]
+impl TopicAliasRecv {
+    /// Verification hook: `(max_alias, alias -> topic sorted by alias)`.
+    pub fn verif_state(&self) -> (TopicAliasType, alloc::vec::Vec<(TopicAliasType, String)>) {
+        let mut v: alloc::vec::Vec<(TopicAliasType, String)> =
+            self.aliases.iter().map(|(a, t)| (*a, t.clone())).collect();
+        v.sort();
+        (self.max_alias, v)
+    }
+}
+
+#[cfg(feature = "verif-hooks")]
+impl Clone for TopicAliasRecv {
+    fn clone(&self) -> Self {
+        Self {
+            max_alias: self.max_alias,
+            aliases: self.aliases.clone(),
+        }
+    }
+}
